@@ -20,6 +20,11 @@ func (c *Ctx) OnStep(f func() string) { c.s.onStep = append(c.s.onStep, f) }
 // OnEnd registers an oracle evaluated at quiescence (no enabled transition).
 func (c *Ctx) OnEnd(f func() string) { c.s.onEnd = append(c.s.onEnd, f) }
 
+// AtRest registers f to run as a thread of its own once nothing else can move (before the
+// OnEnd callbacks): calls into the code under test that an oracle makes "at rest" are then
+// ordinary scheduled operations, whatever primitives the code uses for them.
+func (c *Ctx) AtRest(f func()) { c.s.atRest = append(c.s.atRest, f) }
+
 // Outcome adds a label to this execution's outcome (for distinct-outcome statistics).
 func (c *Ctx) Outcome(s string) { c.s.outcome = append(c.s.outcome, s) }
 
@@ -279,6 +284,22 @@ func runOne(cfg *Config, prefix []int, visited map[uint64]cacheEntry, body func(
 			}
 		}
 		if len(trs) == 0 {
+			if len(s.atRest) > 0 {
+				f := s.atRest[0]
+				s.atRest = s.atRest[1:]
+				s.cur = nil
+				if t := GoNamed("at-rest", f); t != nil {
+					// it comes after everything that has happened (nothing is concurrent with it)
+					t.hid = mix(0xa7e57, uint64(len(s.threads)))
+					t.hist = t.hid
+					for _, o := range s.threads {
+						if o != t {
+							t.vc.join(o.vc)
+						}
+					}
+				}
+				continue
+			}
 			break // quiescent
 		}
 		choice := 0
